@@ -83,7 +83,14 @@ func mustJSON(v interface{}) []byte {
 	return b
 }
 
+// errEmptyName is what client-go's rest.Request answers, without sending anything, when a typed client is asked for
+// an object with an empty name (rest.(*Request).Name); it is NOT a NotFound status error.
+var errEmptyName = errors.New("resource name may not be empty")
+
 func apiGet(kind, ns, name string, out interface{}) error {
+	if name == "" {
+		return errEmptyName
+	}
 	r := core.Call(core.Req{Op: "api.get", A: []string{kind, ns, name}})
 	if err := ToErr(r, kind, name); err != nil {
 		return err
@@ -111,6 +118,9 @@ func apiWrite(op, kind, ns, name string, in, out interface{}) error {
 }
 
 func apiDelete(kind, ns, name string) error {
+	if name == "" {
+		return errEmptyName
+	}
 	r := core.Call(core.Req{Op: "api.delete", A: []string{kind, ns, name}})
 	return ToErr(r, kind, name)
 }
